@@ -128,3 +128,19 @@ reg(
     TECHNIQUE="wire-level runtime monitoring with an independent strict request parser + relational oracle on method/target/headers",
     REQUIRED_MONITORS={"quick": {"call": 10000, "wire_parse": 3000, "header_list": 2000, "target_relation": 2000, "h2_header": 1000, "sequence": 1000}, "thorough": {"call": 50000, "wire_parse": 15000, "h2_header": 1000}},
 )
+
+reg(
+    "C12",
+    RULE="(response spec, call sequence) pairs: payload sizes {0,1,5,100,3000,70000} with position-identifying content x framing {Content-Length, chunked with random chunk-size vectors and extensions, close-delimited} x coding {identity, gzip, 2-member gzip, x-gzip, zlib, raw deflate, zstd, 2-frame zstd, two-coding stacks, unknown} x socket segmentation {1,2,7 bytes, random, whole} x decode_content x call sequences over read(), read(n), read1(n), read1(), readinto(k), read(0), stream(a), read_chunked(a), iteration with n in {1,2,3,7,64,1000}, the last call repeated until two empty results; exhaustive for short sequences on small bodies, random beyond; plus preloaded .data; a case is (spec, sequence); non-trivial = all; distinct = distinct pairs",
+    ASSUMPTIONS=COMMON_ASSUMPTIONS + [
+        "all calls of one sequence use the same explicit decode_content (as the statement says)",
+        "read1(n)/readinto(k) may return fewer bytes than asked at any time (their documented contract); only read(n) must fill unless the body ends",
+        "generators (stream/read_chunked/iteration) stay open and are resumed by later steps; on chunked bodies a sequence uses one generator (two simultaneously suspended chunk-parser generators on one response are not generated); __iter__ is only used with decode_content=True because it takes no such argument",
+    ],
+    SHARDS={"quick": 8, "thorough": 16},
+    BUDGET={"quick": 60, "thorough": 480},
+    LEVEL_TEXT="Runtime monitoring of real HTTPResponse objects produced by HTTPConnection.getresponse() over an in-memory socket with server-controlled segmentation: for each generated (response, call sequence) the concatenated pieces are compared byte-for-byte with the payload the generator encoded, and per-call size rules (read(n) <= n and short only at the end, no empty streamed piece, b'' after the end, .data equal) are asserted.",
+    LEVEL_NOTE="Trusts zlib/zstandard as encoders for building responses and the generator's bookkeeping of the expected bytes; sequences longer than the exhaustive bound are sampled.",
+    TECHNIQUE="differential runtime monitoring of read-API call sequences against the generator's payload (byte equality + per-call contracts)",
+    REQUIRED_MONITORS={"quick": {"response": 8000, "concatenation": 6000, "size_rules": 6000, "preload_data": 200}, "thorough": {"response": 10**5, "concatenation": 10**5, "preload_data": 1000}},
+)
